@@ -456,6 +456,26 @@ impl Prop for C13 {
                 }
             }
             out.count("per_character_shapes", nshape);
+            // options the statement does not mention (ANSI output, smart quotes, English, number pad, phonetic suggestions)
+            // must not change where the reph goes, nor make the key move it while old-style reph is off
+            {
+                let texts: Vec<Vec<(u16, u8)>> = vec![vec![], vec![ka], vec![ka, aa], vec![ka, h, ka, i], vec![a, ka, ch], vec![ka, h, ka, aa, ch], vec![ka, aa, ka]];
+                let mut nby = 0u64;
+                for by in [O_ANSI, O_SQ, O_ENG, O_NUMPAD, O_PSUGG, O_ANSI | O_ENG | O_SQ, O_ANSI | O_NUMPAD | O_PSUGG] {
+                    for bits in [0u8, 5, 10, 15] {
+                        for on in [false, true] {
+                            let spec = CfgSpec { opts: spec_for(bits, on).opts | by, ..spec_for(bits, on) };
+                            let Ok(s) = Sess::new(spec, &root) else { continue };
+                            for w in &texts {
+                                nby += 1;
+                                out.begin_case(|| case_json(&spec, w, reph));
+                                judge(&s, &spec, w, reph, out, &mut t);
+                            }
+                        }
+                    }
+                }
+                out.count("with_bystander_options", nby);
+            }
             // the option switched on and off under a live, idle context: it must take effect at once
             let base = CfgSpec::new(Lay::Verif, 0);
             if let Ok(mut s) = Sess::new(base, &root) {
